@@ -156,6 +156,21 @@ def gen_parse(rng, tier):
         elif r < 0.22 and args_:
             bad = ["missing_positional", None, None]
         yield {"cmd": name, "items": items, "bad": bad}
+    # a fixed share: both forms of sample selection at once, for every command that takes them and every list file (the empty
+    # one and the blank one included), in either order
+    for name in sorted(ENTRY):
+        cmd = _cmd(name)
+        opts = [p for p in cmd.params if isinstance(p, click.Option)]
+        args_ = [p for p in cmd.params if isinstance(p, click.Argument)]
+        ps = {p.name: p for p in opts}
+        if "samples" not in ps or "samples_file" not in ps:
+            continue
+        for k, (fn, _) in enumerate(LIST_FILES):
+            items = [["opt", p.name, list(p.opts)[0], _value_for(rng, p)] for p in opts if p.required]
+            two = [["opt", "samples", list(ps["samples"].opts)[k % len(ps["samples"].opts)], "s0"], ["opt", "samples_file", list(ps["samples_file"].opts)[(k // 2) % len(ps["samples_file"].opts)], str(_dir / fn)]]
+            items += two if k % 2 == 0 else two[::-1]
+            items += [["pos", p.name, None, _pos_value(rng, p)] for p in args_]
+            yield {"cmd": name, "items": items, "bad": None}
 
 
 def _args_of(case):
